@@ -22,10 +22,15 @@ class _Rewrite(ast.NodeTransformer):
   def visit_Call(s,n):
     if isinstance(n.func,ast.Name) and n.func.id=='old':
       s.olds.append(n.args[0]); i=len(s.olds)-1
-      return ast.Subscript(ast.Name('__old',ast.Load()),ast.Constant(i),ast.Load())
+      # evaluated in the pre-state with the quantifier-bound names of the enclosing scope visible
+      return ast.Call(ast.Name('__oldeval',ast.Load()),[ast.Constant(i),ast.Call(ast.Name('locals',ast.Load()),[],[])],[])
     if isinstance(n.func,ast.Name) and n.func.id=='isset':
       a=n.args[0]
       return ast.Call(ast.Name('__hasslot',ast.Load()),[s.visit(a.value),ast.Constant(a.attr)],[])
+    if isinstance(n.func,ast.Name) and n.func.id=='forall_int':
+      names=[a.id for a in n.args[:-1]]; body=s.visit(n.args[-1])
+      gens=[ast.comprehension(ast.Name(nm,ast.Store()),ast.Name('__irange',ast.Load()),[],0) for nm in names]
+      return ast.Call(ast.Name('all',ast.Load()),[ast.GeneratorExp(body,gens)],[])
     if isinstance(n.func,ast.Name) and n.func.id=='fresh':
       return ast.Call(ast.Name('__fresh',ast.Load()),[s.visit(a) for a in n.args],[])
     return s.generic_visit(n)
@@ -74,6 +79,14 @@ def load_module(repo,rel):
 def resolve(repo,key):
   rel,qual=key.split('::')
   m=load_module(repo,rel); o=m
+  if '.' in qual and isinstance(getattr(m,qual.split('.')[0],None),dict):
+    tab=getattr(m,qual.split('.')[0]); key2=qual.split('.',1)[1]
+    for k,v in tab.items():
+      if getattr(k,'name',None)==key2 or str(k)==key2: return v
+    ns=vars(m)
+    for holder in ns.values():
+      if hasattr(holder,key2) and getattr(holder,key2) in tab: return tab[getattr(holder,key2)]
+    raise KeyError(qual)
   for part in qual.split('.'):
     o=getattr(o,part) if not isinstance(o,property) else o
     if isinstance(o,property): o=o.fget
@@ -92,6 +105,7 @@ def _snap(v,memo=None):
   memo={} if memo is None else memo
   if isinstance(v,(int,bool,str,type(None),slice,float,type)) or callable(v): return v
   if id(v) in memo: return memo[id(v)]
+  if isinstance(v,(bytearray,bytes)): return type(v)(v)
   if isinstance(v,tuple): return tuple(_snap(x,memo) for x in v)
   if isinstance(v,list):
     r=[]; memo[id(v)]=r; r.extend(_snap(x,memo) for x in v); return r
@@ -158,10 +172,13 @@ def check_call(contract, args, repo, ns=None):
     return Outcome(case=case.name,ok=False,failed=failed,result=repr(result),skipped=False)
   env2=dict(ns); env2.update(args); env2['result']=result
   env2['__hasslot']=_hasslot; env2['__fresh']=lambda x: id(x) not in pre_ids
+  env2['__irange']=range(-2,max([len(v) for v in args.values() if isinstance(v,(bytearray,bytes,list))]+[8])+3)
   for cl in case.clauses():
     code,olds=compile_expr(cl)
     envo=dict(ns); envo.update(pre); envo['__hasslot']=_hasslot
-    env2['__old']=[eval(o,envo) for o in olds]
+    def _oldeval(i,loc,olds=olds,envo=envo):
+      e=dict(envo); e.update({k:v for k,v in loc.items() if k not in envo and not k.startswith('__') and k!='.0'}); return eval(olds[i],e)
+    env2['__oldeval']=_oldeval
     try: v=eval(code,env2)
     except Exception as e: v=False; failed.append(f"clause `{ast.unparse(cl)}` not evaluable on the result: {type(e).__name__}: {e}"); continue
     if not v: failed.append(f"clause `{ast.unparse(cl)}` is false")
